@@ -251,6 +251,12 @@ func (oc *obligCtx) paramNonNeg1(p *ssa.Parameter, depth int) bool {
 // paramLenFloor: the largest m ≤ 4 such that every call site of the (unexported, never escaping)
 // function passes a slice of length ≥ m for this parameter.
 func (oc *obligCtx) paramLenFloor(p *ssa.Parameter) int64 {
+	return oc.paramLenFloorD(p, 0)
+}
+
+// paramLenFloorD: an argument that is itself an (unassigned) parameter of the calling helper takes the floor
+// of that parameter (two levels: setValue → setContainerValue(cFields) → assignContainerField(cFields)).
+func (oc *obligCtx) paramLenFloorD(p *ssa.Parameter, depth int) int64 {
 	fn := p.Parent()
 	if fn == nil || fn.Parent() != nil {
 		return 0
@@ -285,6 +291,11 @@ func (oc *obligCtx) paramLenFloor(p *ssa.Parameter) int64 {
 				m = k
 			} else {
 				break
+			}
+		}
+		if ap, isParam := args[idx].(*ssa.Parameter); isParam && depth < 2 && m < floor {
+			if up := oc.paramLenFloorD(ap, depth+1); up > m {
+				m = up
 			}
 		}
 		if m < floor {
@@ -681,6 +692,9 @@ func (oc *obligCtx) indexOb(fn *ssa.Function, in ssa.Instruction, X, idx ssa.Val
 		}
 	}
 	f := FactsAt(in)
+	if _, isC := constInt(idx); !isC {
+		oc.addParamFloor(f, X)
+	}
 	if p, isP := stripNumConv(idx).(*ssa.Parameter); isP && sortCallback(fn) && rootOf(X) == ssa.Value(fn.Params[0]) {
 		_ = p
 		add("index", in, desc, true, "index parameter of a sort.Interface callback: valid by sort's contract")
@@ -755,6 +769,7 @@ func (oc *obligCtx) sliceOb(in ssa.Instruction, x *ssa.Slice, add addFn) {
 		return
 	}
 	f := FactsAt(in)
+	oc.addParamFloor(f, x.X)
 	desc := accessPath(x.X) + "[" + optExpr(x.Low) + ":" + optExpr(x.High) + "]"
 	// Children[k:] with at least k children by the AST shape
 	if x.High == nil && x.Max == nil {
@@ -1723,4 +1738,19 @@ func nonNilError(v ssa.Value, fn *ssa.Function, d int) bool {
 		return strings.HasSuffix(fn.Name(), "NewRuntimeError")
 	}
 	return false
+}
+
+// addParamFloor: a slice parameter of an unexported function — what every call site knows about its length
+// becomes a fact at the construct (x[len(x)-1], x[:len(x)-1] in a helper that is handed the list).
+func (oc *obligCtx) addParamFloor(f *Facts, X ssa.Value) {
+	p, isP := X.(*ssa.Parameter)
+	if !isP {
+		return
+	}
+	if _, isSlice := p.Type().Underlying().(*types.Slice); !isSlice {
+		return
+	}
+	if fl := oc.paramLenFloor(p); fl > 0 {
+		f.Cmps = append(f.Cmps, Cmp{L: Term{LenPath: accessPath(X), LenVal: X}, Op: token.GEQ, R: Term{IsConst: true, K: fl}})
+	}
 }
